@@ -67,6 +67,9 @@ type Scenario struct {
 	// ShutdownEarly: the Shutdown caller only waits for the engine to report "running" - which Run does before the
 	// transport has created its listener - not for the listener
 	ShutdownEarly bool `json:"shutdown_early,omitempty"`
+	// SecondRun: Run is called a second time while the engine serves (a retry loop, Spin from two places): that call is
+	// refused, and the serving engine goes on serving - the Shutdown that follows does its whole job
+	SecondRun bool `json:"second_run,omitempty"`
 }
 
 type Job struct {
@@ -176,6 +179,8 @@ type shutdownRec struct {
 	err              error
 	acceptsAtReturn  int
 	slackFree        bool
+	// notRunning: the call was made on an engine that no longer served, or while another call was in progress / had succeeded
+	notRunning bool
 }
 
 type handled struct {
@@ -189,6 +194,8 @@ type World struct {
 	e         *route.Engine
 	conns     []*pconn
 	hookRuns  []int
+	// runReturned: the first Run call has returned (the engine no longer serves)
+	runReturned bool
 	shutdowns []*shutdownRec
 	handled   map[string]handled // request id -> info
 	refused   int
@@ -344,7 +351,7 @@ func (w *World) Body() func() {
 			}
 			return
 		}
-		verifrt.Go("run", func() { e.Run() }) //nolint:errcheck
+		verifrt.Go("run", func() { e.Run(); w.runReturned = true }) //nolint:errcheck
 		for i, cl := range sc.Clients {
 			wg.Add(1)
 			f := w.clientThread(i, cl)
@@ -367,6 +374,11 @@ func (w *World) Body() func() {
 				if sc.ShutdownDelay > 0 {
 					verifrt.Sleep(sc.ShutdownDelay)
 				}
+				if sc.SecondRun {
+					if err := w.e.Run(); err == nil {
+						w.violate("a second Run on a serving engine returned nil")
+					}
+				}
 				w.callShutdown(r)
 				if sc.Again && r.err == nil {
 					r2 := &shutdownRec{}
@@ -385,7 +397,8 @@ func (w *World) Body() func() {
 func (w *World) callShutdown(r *shutdownRec) {
 	r.called = true
 	r.start = verifrt.VNow()
-	statusAtCall := w.e.StatusForVerif()
+	// (the harness's own knowledge: the run thread has been started, the engine reported "running", Run has not returned)
+	servingAtCall := !w.runReturned
 	r.err = w.e.Shutdown(context.Background())
 	r.end = verifrt.VNow()
 	r.returned = true
@@ -403,13 +416,14 @@ func (w *World) callShutdown(r *shutdownRec) {
 	// began, or another Shutdown call is in progress or has succeeded.)
 	notRunning := false
 	if r.err != nil {
-		notRunning = statusAtCall != 2
+		notRunning = !servingAtCall
 		for _, o := range w.shutdowns {
 			if o != r && o.called && (!o.returned || o.err == nil) {
 				notRunning = true
 			}
 		}
 	}
+	r.notRunning = notRunning
 	if !notRunning && r.slackFree && r.end-r.start < w.job.Sc.ExitWait {
 		for i, c := range w.conns {
 			if c == nil || !c.accepted || c.acceptAt >= r.start {
@@ -523,6 +537,10 @@ func (w *World) final() {
 		// whatever it returns (nil, a time-out error, "not running"), the call is over when the exit wait time is
 		if r.slackFree && r.end-r.start > sc.ExitWait {
 			w.violate("Shutdown call %d took %v of virtual time, ExitWaitTimeout is %v", k, r.end-r.start, sc.ExitWait)
+		}
+		// the one call made on a serving engine does the job: it does not come back with an error while there is time left
+		if r.err != nil && !r.notRunning && r.slackFree && r.end-r.start < sc.ExitWait {
+			w.violate("Shutdown call %d on a serving engine (no other call in progress) returned an error after %v, before the exit wait time %v was over: %v", k, r.end-r.start, sc.ExitWait, r.err)
 		}
 		if r.err == nil {
 			winners++
